@@ -5,8 +5,12 @@ import (
 	"fmt"
 	"math/rand"
 	"os"
+	"os/exec"
 	"path/filepath"
+	"regexp"
+	"strconv"
 	"strings"
+	"time"
 
 	"verif/ev"
 	"verif/gen"
@@ -400,6 +404,11 @@ func C07() int {
 	}
 	defer s.Close()
 	rng := rand.New(rand.NewSource(c.Seed*7001 + 7))
+	if os.Getenv("VERIF_C07_ONLY") == "fuzz" { // development aid: the fuzzing stage alone
+		c07Fuzz(s, c)
+		c.Sample(map[string]any{"stage": "fuzz only"})
+		return c.Finish("fuzzing stage only (development aid)")
+	}
 	vocab := Vocabulary(s, c)
 	cases := c07Cases(c, g, vocab, s.Repo, rng)
 	c.Set("hostile_lines", len(cases))
@@ -495,6 +504,11 @@ func C07() int {
 
 	// ---- (f) lines around and beyond the reader's limit
 	c07LongLines(s, c)
+
+	// ---- (e) thorough tier: Go native coverage-guided fuzzing on a scratch copy
+	if thorough(c) {
+		c07Fuzz(s, c)
+	}
 
 	total := 0
 	for _, m := range c07Modes {
@@ -631,4 +645,62 @@ func c07LongLines(s *sut.SUT, c *ev.Check) {
 		}
 		c.Count("over_limit_lines_rejected_with_error", 1)
 	})
+}
+
+// c07Fuzz runs the fuzz target of harness/agent/fuzz on a scratch copy of the
+// repository (native fuzzing needs a writable package directory), bounded by
+// execution count.
+func c07Fuzz(s *sut.SUT, c *ev.Check) {
+	copyDir := filepath.Join(s.Scratch, "fuzzcopy")
+	if out, err := exec.Command("rsync", "-a", "--exclude", ".git", s.Repo+"/", copyDir+"/").CombinedOutput(); err != nil {
+		c.Set("fuzzing", "skipped: rsync failed: "+string(out))
+		return
+	}
+	defer os.RemoveAll(copyDir)
+	src, err := os.ReadFile(filepath.Join(s.Verif, "harness", "agent", "fuzz", "fuzz_test.go"))
+	if err != nil {
+		c.Set("fuzzing", "skipped: fuzz target missing")
+		return
+	}
+	os.WriteFile(filepath.Join(copyDir, "src", "zz_verif_fuzz_test.go"), src, 0o644)
+	execs := "400000x"
+	if v := os.Getenv("VERIF_FUZZ_EXECS"); v != "" {
+		execs = v
+	}
+	cmd := exec.Command("go", "test", "-tags", "verif", "-vet=off", "-run", "^$", "-fuzz", "^FuzzVerifRedact$", "-fuzztime", execs, "./src")
+	cmd.Dir = copyDir
+	env := os.Environ()
+	cmd.Env = append(env, "GOFLAGS=-mod=mod", "GOPROXY=off", "GOTOOLCHAIN=auto")
+	done := make(chan struct{})
+	var out []byte
+	go func() { out, err = cmd.CombinedOutput(); close(done) }()
+	select {
+	case <-done:
+	case <-time.After(40 * time.Minute):
+		cmd.Process.Kill()
+		<-done
+		c.Set("fuzzing", "inconclusive: watchdog")
+		return
+	}
+	o := string(out)
+	tailN := o
+	if len(tailN) > 1500 {
+		tailN = tailN[len(tailN)-1500:]
+	}
+	c.Set("fuzzing_executions_requested", execs)
+	c.Set("fuzzing_output_tail", tailN)
+	if m := regexp.MustCompile(`execs: (\d+)`).FindAllStringSubmatch(o, -1); len(m) > 0 {
+		n, _ := strconv.Atoi(m[len(m)-1][1])
+		c.Count("fuzz_executions", n)
+	}
+	if strings.Contains(o, "--- FAIL") || (err != nil && strings.Contains(o, "Failing input written to")) {
+		input := ""
+		if m := regexp.MustCompile(`Failing input written to (\S+)`).FindStringSubmatch(o); m != nil {
+			b, _ := os.ReadFile(filepath.Join(copyDir, "src", m[1]))
+			input = string(b)
+		}
+		c.Violation("fuzz-crash", "coverage-guided fuzzing of RedactMongoLog+MarshalOrdered found a failing input: "+short([]byte(tailN), 600), map[string]any{"kind": "fuzz", "go_fuzz_corpus_entry": input, "output_tail": tailN})
+	} else if err != nil {
+		c.Set("fuzzing", "inconclusive: go test -fuzz failed to run: "+firstLine(tailN))
+	}
 }
